@@ -34,7 +34,14 @@ theorem enum_order (iter : List Str → List Str) (hperm : ∀ l, (iter l).Perm 
 /-- **map ranges are benign**: every `range` over a map in generator code either collects keys
 into a slice that is sorted before use, or only inserts into another map. Closed by `decide` on
 the sites found in the current source. -/
-theorem map_ranges_benign : ∀ s ∈ Gen.MapRanges.sites, s.2.2.1 = true ∨ s.2.2.2 = true := by decide
+theorem map_ranges_benign : ∀ s ∈ Gen.MapRanges.sites, s.2.2.1 = true ∨ s.2.2.2.1 = true := by decide
+
+/-- **the sorts are total**: every site that relies on sorting the collected keys sorts them with
+the plain string order (`sort.Strings` / `slices.Sort`), under which distinct map keys never
+compare equal — a comparator that identifies distinct keys (e.g. case-insensitive) would leave
+their relative order to the map iteration. -/
+theorem sorted_sites_use_total_order :
+    ∀ s ∈ Gen.MapRanges.sites, s.2.2.1 = true → s.2.2.2.2 = "sort.Strings" ∨ s.2.2.2.2 = "slices.Sort" := by decide
 
 /-- what a regression would look like: without the sort the result depends on the iteration order. -/
 theorem unsorted_would_depend : ∃ s m iter₁ iter₂, (∀ l, (iter₁ l).Perm l) ∧ (∀ l, (iter₂ l).Perm l) ∧
